@@ -32,3 +32,9 @@ Theorem C09_paused_still_probes :
     r = match cache_get w (desired_key ow p) with Some o => ROk o | None => RMissing end.
 Proof. exact paused_still_probes. Qed.
 Print Assumptions C09_paused_still_probes.
+
+(** The phase-level monitor (coq/corr/PhaseMonitors.v m09p) accepts every pass of the model. *)
+From PKOCorr Require Import PhaseCorr PhaseMonitors C05Sound PhaseMonSound.
+Theorem C09_phase_monitor_sound : forall c : pcase, m09p (set_obs c (model_run c)) = true.
+Proof. exact m09p_sound. Qed.
+Print Assumptions C09_phase_monitor_sound.
